@@ -214,12 +214,3 @@ Example guard_satisfiable :
   /\ Nat.ltb 40 (length (flat_map (vis_op_sites w_schema_0 w_doc_14) (doc_ops w_doc_14))) = true.
 Proof. repeat split; vm_compute; reflexivity. Qed.
 
-(** the unguarded statement (every rule on every syntactic position) is false for the current code *)
-Definition sound_full : Prop :=
-  forall S D, schema_wf S = true -> check_operation_document S D = [] -> forall r, rule_ok S D r = true.
-
-Lemma sound_full_refuted : ~ sound_full.
-Proof.
-  intros H. specialize (H w_schema_0 w_doc_0 (proj1 guard_satisfiable) (proj1 unspread_fragment_refuted) R_fields_exist).
-  rewrite (proj2 unspread_fragment_refuted) in H. discriminate.
-Qed.
